@@ -128,7 +128,7 @@ WfSpec(k, sp, ovl) ==
 
 WfDecl(dc, ovl) ==
   /\ dc.d \in (IF ~ovl THEN {""}
-               ELSE IF dc.k \in {"func", "meth"} /\ dc.n # "init" THEN {"", "keep", "purge", "sig"}
+               ELSE IF dc.k = "meth" \/ (dc.k = "func" /\ dc.n # "init") THEN {"", "keep", "purge", "sig"}
                ELSE IF dc.n = "init" THEN {""} ELSE {"", "purge"})
   /\ (IF IsFn(dc)
       THEN /\ dc.specs = <<>>
@@ -136,7 +136,7 @@ WfDecl(dc, ovl) ==
            /\ (dc.su = "plc" => dc.g)                               \* a constraint needs a type parameter
            /\ (dc.d = "sig" => dc.u = "")                           \* an override-signature marker has no body
            /\ (dc.k = "func" => dc.r = "" /\ dc.rk = "" /\ dc.u \in FnUses /\ (dc.n = "init" => ~dc.g /\ dc.su = ""))
-           /\ (dc.k = "meth" => dc.rk \in {"val", "ptr", "gen"} /\ dc.u \in FnUses /\ ~dc.g /\ dc.n # "init")
+           /\ (dc.k = "meth" => dc.rk \in {"val", "ptr", "gen"} /\ dc.u \in FnUses /\ ~dc.g)   \* a METHOD may be called init: it is an ordinary method (key T.init)
            /\ (dc.k = "lnk" => dc.r = "" /\ dc.rk \in {"doc", "float"} /\ dc.u = "" /\ ~dc.g /\ dc.n # "init")
       ELSE /\ dc.n = "" /\ dc.r = "" /\ dc.rk = "" /\ dc.u = "" /\ dc.su = "" /\ ~dc.g
            /\ Len(dc.specs) \in 1..3
